@@ -66,7 +66,7 @@ def run(tier):
     ck.coverage["programs_discarded_by_model"] = discarded
     ck.coverage["avoid_tags_in_force"] = sorted(t for t in avoid if t.startswith("exc."))
     return ck.finish("programs from the exc profiles (try/catch/finally nestings with loops, functions, closures, "
-                     "explicit and built-in throw sites), compared with the reference model; non-trivial = distinct "
+                     "explicit and built-in throw sites), exceptions crossing module boundaries in both directions, and 44 kinds of failing call made next to locals that are printed afterwards, compared with the reference model; non-trivial = distinct "
                      "program in which an exception was delivered to a catch block and a finally block ran")
 
 
